@@ -242,6 +242,36 @@ theorem tcp_model_meets_spec (max : Nat) (chunks : List Bytes) :
     by_cases hall : (parse chunks.flatten).1.all decB = true <;> simp [hall, hne]
   simp [Framing.spec, Gnet.spec, this]
 
+/-- ★ the goroutine listener's model satisfies the executable specification for EVERY completion
+    schedule (how many handlers finish while each message is read), every limit and every chunking:
+    a query is REFUSED iff `max` handlers are running when it is decoded, none is dropped. -/
+theorem tcp_model_meets_spec_sched (max : Nat) (done : Nat → Nat) (chunks : List Bytes) :
+    Framing.specS max done chunks.flatten (Framing.tcpObsS max done chunks) = true := by
+  have h1 := Framing.handleConn_sched decB max done (fun _ => false) (chunks.flatten.length + 1) 0 chunks 0
+    (by omega)
+  have h2 := (Framing.handleConn_refines decB max done (fun _ => false)
+    (chunks.flatten.length + 1) 0 chunks 0 (by omega)).2
+  have hne : ∀ n, (Framing.End.closed n == Framing.End.invalid) = false := by intro n; rfl
+  have : Framing.tcpObsS max done chunks = Framing.expectedS max done chunks.flatten := by
+    simp only [Framing.tcpObsS, h1, h2, Framing.endOf, Framing.expectedS]
+    by_cases hall : (parse chunks.flatten).1.all decB = true <;> simp [hall, hne]
+  simp [Framing.specS, this]
+
+/-- ★ ping-pong (the client waits for each response before it sends the next query; limit ≥ 1): the
+    goroutine listener's model answers every decodable frame through the upstream and refuses none,
+    for every chunking and ANY number of queries (also more than the limit). -/
+theorem tcp_pingpong_meets_spec (max : Nat) (hmax : 1 ≤ max) (chunks : List Bytes) :
+    Framing.ppSpec chunks.flatten (Framing.tcpObsPP max chunks) = true := by
+  have h1 := Framing.handleConn_pingpong decB max hmax (chunks.flatten.length + 1) 0 chunks 0
+    (by omega) (by omega)
+  have h2 := (Framing.handleConn_refines decB max (fun _ => 1) (fun _ => false)
+    (chunks.flatten.length + 1) 0 chunks 0 (by omega)).2
+  have hne : ∀ n, (Framing.End.closed n == Framing.End.invalid) = false := by intro n; rfl
+  have : Framing.tcpObsPP max chunks = Framing.ppExpected chunks.flatten := by
+    simp only [Framing.tcpObsPP, h1, h2, Framing.endOf, Framing.ppExpected]
+    by_cases hall : (parse chunks.flatten).1.all decB = true <;> simp [hall, hne]
+  simp [Framing.ppSpec, this]
+
 /-- over the limit (or when the limiter objects) the goroutine listener answers REFUSED — the query
     is not dropped: it is the head of the event list. -/
 theorem tcp_over_limit_refused (dec : Bytes → Bool) (max : Nat) (done : Nat → Nat) (lim : Nat → Bool)
@@ -308,6 +338,25 @@ theorem spec_rejects_wrong_close (c : Case) (o : Obs) (h : o.closed ≠ (expecte
 /-- `over_limit_refused` is not vacuous: limit 1, one handler running, idle connection, one frame. -/
 example : (onTraffic (fun _ => true) 1 4 ⟨none, 0, false, 1⟩ [0, 1, 7]).evs = [.refused [7]] := by decide
 
+/-- The restriction to frames of length ≥ 1 is necessary, and the model shows why: in the idle state a
+    zero-length prefix makes `c.Next(0)` return EVERYTHING that is buffered, and `UnpackMsg` is applied to
+    all of it — if that happens to decode, the octets after `00 00` are served as a query (with the same
+    octets cut right after the prefix the empty buffer fails to decode and the connection is closed).
+    Observed on the real `OnTraffic` as well (see the report); zero-length frames are C01's business. -/
+theorem zero_length_frame_quirk (dec : Bytes → Bool) (rest : Bytes) (h : dec rest = true) :
+    (onTraffic dec 1 1 ⟨none, 0, false, 0⟩ (0 :: 0 :: rest)).evs = [.query rest] ∧
+    (parse (0 :: 0 :: rest)).1.head? = some [] := by
+  constructor
+  · have hn : next (0 :: 0 :: rest) 2 = ([0, 0], rest) := by
+      have := next_exact (0 :: 0 :: rest) 2 (by omega) (by simp)
+      simpa using this
+    have hz : rd16 0 0 = 0 := by decide
+    have hb : next rest 0 = (rest, []) := next_all rest _ (by omega)
+    simp [onTraffic, readOne, hn, hz, hb, h, inboundBuffered]
+  · have hz : rd16 0 0 = 0 := by decide
+    rw [parse_complete 0 0 rest (by rw [hz]; omega)]
+    simp [hz]
+
 /-! ## tie to the source -/
 
 /-- pinned source facts the models were transcribed from -/
@@ -351,6 +400,7 @@ theorem pins :
       "cc > s.maxConcurrent || s.r.limiterAllowN(netAddr2NetipAddr(c.RemoteAddr()).Addr(), costTCPQuery) != nil" ∧
     Facts.tcpfr_refusedResp = "resp := mustHaveRespB(m, nil, dnsmsg.RCodeRefused, true, 0)" ∧
     Facts.tcpfr_refusedWriteCount = 1 ∧
+    Facts.tcpfr_decCount = 2 ∧
     Facts.tcpfr_respBuf = "buf := mustHaveRespB(m, rc.Response.Msg, dnsmsg.RCodeRefused, true, 0)" ∧
     Facts.tcpfr_respWrite = "_, err := c.Write(buf)" ∧
     Facts.tcpfr_respWriteCount = 1 ∧
